@@ -25,11 +25,11 @@ def apply_patch(dst, patch):
         raise RuntimeError("patch does not apply: %s %s" % (r.stdout, r.stderr))
 
 
-def evaluate(dst, props, config="default"):
+def evaluate(dst, props, config="default", tag="mut"):
     """-> {prop: [Ob...]} (all obligations) ; raises ExtractionError if it does not compile"""
     import importlib
     chk = {}
-    facts = F.extract(config, repo=dst, target_tag="mut-" + config)
+    facts = F.extract(config, repo=dst, target_tag=tag + "-" + config)
     # rel() strips /repo; make it strip the scratch path as well
     for b in facts.bodies:
         if b["file"].startswith(dst + "/"):
@@ -50,7 +50,7 @@ def evaluate(dst, props, config="default"):
         obs = []
         if p == "C19":
             from rules import config_rules as CR
-            f2 = F.extract("f32" if config == "default" else "default", repo=dst, target_tag="mut-" + ("f32" if config == "default" else "default"))
+            f2 = F.extract("f32" if config == "default" else "default", repo=dst, target_tag=tag + "-" + ("f32" if config == "default" else "default"))
             fb = {config: facts, ("f32" if config == "default" else "default"): f2}
             def rr(prop, fx):
                 o = []
